@@ -225,6 +225,12 @@ func (c *Ctx) addLaws(tc *TypeCase, v reflect.Value, label string) {
 		c.native = append(c.native, NativeViolation{Case: desc, Class: "size-law",
 			What: fmt.Sprintf("Size(nil)=%d len(Append(nil))=%d Size(tag)=%d len(Append(tag))=%d Read consumed %d of %d", sn, len(an), st, len(at), rn, len(an))})
 	}
+	if len(at) > 6000 {
+		// the law itself was checked on the implementation just above; a term of this
+		// size is not worth evaluating in the model as well
+		c.count("laws_checked_natively_only_large")
+		return
+	}
 	fuel := tc.fuel(valueDepth(v))
 	term := fmt.Sprintf("KLaws %s %s %s %d %d %s %s %d", tc.head(fuel), coqVal(v), coqBytes(ftag), sn, st, coqBytes(an), coqBytes(at), rn)
 	c.add(term, desc, shapeClass(tc.T, 3)+"/"+tc.Cfg.String(), hasContainerAndNonZero(v))
